@@ -365,4 +365,55 @@ def r14_4(ctx: Ctx) -> RuleResult:
     return rr
 
 
-RULES = [r14_1, r14_2, r14_3, r14_4]
+def r14_5(ctx: Ctx, rule: str = "R14.5") -> RuleResult:
+    """`a.is_relative_to(b)` is a statement about *token sequences*: b's tokens are a proper prefix of a's.  A
+    prefix test on the printed pointers is a different relation (`/ab/c` starts with `/a`), so the decision must
+    come from an equality of token sequences (a slice of one against the other, or element by element), never
+    from `str.startswith` on the text."""
+    rr = RuleResult(rule, "is_relative_to compares token sequences, not text", floor=1)
+    cls = ctx.repo.require_class("jsonpath.pointer.JSONPointer")
+    fn = cls.methods.get("is_relative_to")
+    if fn is None:
+        raise AnalysisError("JSONPointer.is_relative_to not found")
+
+    def parts_derived(e: ast.AST, depth: int = 0) -> bool:
+        for n in ast.walk(e):
+            if isinstance(n, ast.Attribute) and n.attr == "parts":
+                return True
+            if isinstance(n, ast.Call) and isinstance(n.func, ast.Attribute) and depth < 2:
+                m = ctx.repo.find_method(cls, n.func.attr)
+                if m is not None and m is not fn and any(parts_derived(r.value, depth + 1) for r in ast.walk(m.node)
+                                                          if isinstance(r, ast.Return) and r.value is not None):
+                    return True
+        return False
+
+    text_prefix = [c for c in calls(fn.node, "startswith")] + [c for c in calls(fn.node, "removeprefix")]
+    seq_eq = []
+    for n in ast.walk(fn.node):
+        if isinstance(n, ast.Compare) and len(n.ops) == 1 and isinstance(n.ops[0], (ast.Eq, ast.NotEq)):
+            sides = [n.left, n.comparators[0]]
+            if any(isinstance(x, ast.Call) and callee_name(x) == "len" for x in sides):
+                continue
+            if all(parts_derived(x) for x in sides):
+                seq_eq.append(n)
+            else:
+                # element-wise: `f(a) == f(b) for a, b in zip(X, Y)` with X, Y derived from parts
+                for g in ast.walk(fn.node):
+                    if isinstance(g, (ast.comprehension, ast.For)) and isinstance(g.iter, ast.Call) and callee_name(g.iter) == "zip" and len(
+                        g.iter.args) == 2 and all(parts_derived(a) for a in g.iter.args) and isinstance(g.target, ast.Tuple) and len(g.target.elts) == 2:
+                        ta, tb = (path_of(x) for x in g.target.elts)
+                        names = [{x.id for x in ast.walk(sd) if isinstance(x, ast.Name)} & {ta, tb} for sd in sides]
+                        if names[0] and names[1] and names[0] != names[1]:
+                            seq_eq.append(n)
+                            break
+    for c in text_prefix:
+        rr.bad(fn, c, f"`{short(c)}` decides relativity by a prefix of the printed pointer: `/ab/c` starts with `/a` although "
+               "it is not below it (a move from /a to /ab/c is then refused as a move into its own child)", construct=short(c))
+    if seq_eq:
+        rr.ok(fn.loc(seq_eq[0]), f"is_relative_to: `{short(seq_eq[0], 70)}` compares token sequences")
+    elif not text_prefix:
+        raise AnalysisError(f"{rule}: is_relative_to contains no comparison of token sequences")
+    return rr
+
+
+RULES = [r14_1, r14_2, r14_3, r14_4, r14_5]
